@@ -59,6 +59,11 @@ theorem X1_prev_canonical_tie (e : Ext) (i : Int) (rest : List Int) :
     X1_prev_canonical [e] i = Exts.prevCanonical [e] (i :: rest) := by
   simp [X1_prev_canonical, Exts.prevCanonical]
 
+/-- `extensions_t::operator==` / `!=` are tuple (in)equality of the ranges, for D > 1 and D = 1 alike -/
+theorem X_eq_tie (xs ys : List Ext) :
+    X_eq xs ys = Exts.eqv xs ys ∧ X_ne xs ys = !Exts.eqv xs ys ∧ X1_eq xs ys = Exts.eqv xs ys ∧ X1_ne xs ys = !Exts.eqv xs ys :=
+  ⟨rfl, rfl, rfl, rfl⟩
+
 /-! ### `array_iterator` (D > 1 and D = 1) -/
 
 theorem I_inc_tie (it : ArrIt) : I_inc it = it.inc ∧ I1_inc it = it.inc := ⟨rfl, rfl⟩
